@@ -277,8 +277,8 @@ reg(Check("C08", "model_checking",
 reg(Check("C13", "model_checking",
           "inputs: for each of the 10 client message kinds a well-formed baseline and, for every field of it (id, topic, what, mode, user, "
           "scheme, secret, seq, ranges, tags, credentials, head, content, on-behalf-of, ... 28 value menus of 5-27 values incl. absent, empty, "
-          "wrong type, overlong, ill-formed names, other users' ids), every single deviation in every session state {no handshake, handshake, "
-          "logged in, attached to a group, attached to a p2p topic}; selected field pairs (quick) / all pairs (thorough); 2 server "
+          "wrong type, overlong, ill-formed names, other users' ids), every single deviation in 8 session states {no handshake, handshake, "
+          "logged in, attached to me / a group / a p2p topic / fnd, root attached to a group}; selected field pairs (quick) / all pairs (thorough); 2 server "
           "configurations in the thorough tier. raw: every byte string of length <=2, every concatenation of <=3 of 15 JSON tokens and 240 "
           "skeleton messages, in 3 session states. races: the 9 collision scenarios of C14 judged for unanswered requests. acl-fault / "
           "msg-fault: every request of those alphabets with every single store call failing. drafty: every content document with text from a "
